@@ -48,6 +48,11 @@ def rows(prog, key, classify, deep=True, max_paths=20000):
         if res in (0, 1):
             out.append((facts, bool(res), unknown))
             continue
+        # Option / Result valued deciders: Some / Ok = true
+        vn = env.get((0, ("#variant",)))
+        if vn in ("Some", "Ok", "None", "Err"):
+            out.append((facts, vn in ("Some", "Ok"), unknown))
+            continue
         # computed result: the definition of _0 on this path
         pos = {b: i for i, b in enumerate(blocks)}
         ds = [d for d in fv.defs().get(0, []) if d[0] in pos]
